@@ -101,7 +101,10 @@ var trUnits = []trUnit{
 	{ns: "User", pkgDir: "internal/user/server",
 		structs: map[string][]string{"User": {"Name", "permissions"}},
 		vars:    []string{"permissionTypes"},
-		funcs:   []string{"splitPermission", "User.iteratePaths"}},
+		subst:   map[string]string{"info.Mode().IsRegular()": "info.regular"},
+		callExt: map[string]string{"filepath.EvalSymlinks": "evalSymlinks", "filepath.Abs": "absPath", "permissions.ToRead": "osToRead",
+			"os.Lstat": "osLstat"},
+		funcs:   []string{"splitPermission", "User.iteratePaths", "User.hasFilePermission", "User.HasFilePermission"}},
 	{ns: "Config", pkgDir: "internal/config", panics: true,
 		structs: map[string][]string{},
 		funcs:   []string{"setOption", "DeserializeOptions"}},
